@@ -362,7 +362,7 @@ def run(ctx):
     ctx.coverage['pairs_per_base'] = npairs
     ctx.coverage['bases'] = fams
     ctx.exhaustive = True
-    ctx.required.update({'accepted': 500, 'stored-value': 300, 'results-equal': 60, 'echo': 60, 'output-directive': 40})
+    ctx.required.update({'accepted': 500, 'stored-value': 300, 'results-equal': 60, 'echo': 60, 'output-directive': 40, 'output-directive-applied': 40})
     ctx.rule = ('finite product, enumerated completely per base: every scalar float parameter with a unit type x every unit of '
                 'that type\'s catalogue enum that the harness\'s own pint registry converts to the preferred unit (empty unit '
                 'strings cannot be written and are skipped); read-phase probes decide acceptance and the stored value for all '
@@ -429,7 +429,36 @@ def output_job(fam, text, outputs, discover=False, limit=40, seed=0):
     tab0 = {t.title: t for t in T0}
     for o in cands[:limit]:
         wit = {'family': fam, 'output': o['name'], 'unit_type': o['unit_type'], 'from': o['cur'], 'to': o['unit']}
-        r1 = runner.run_text(text + f'\nUnits:{o["name"]}, {o["unit"]}\n')
+        live = {}
+
+        def after_print(stage, model, o=o, live=live):
+            # the requested output as it stands in the model once the report is written (the writer converts in place)
+            if stage == 'after_print':
+                for modname in ('reserv', 'wellbores', 'surfaceplant', 'economics'):
+                    d = getattr(getattr(model, modname, None), 'OutputParameterDict', None)
+                    if isinstance(d, dict) and o['name'] in d:
+                        q = d[o['name']]
+                        cu = getattr(q.CurrentUnits, 'value', q.CurrentUnits)
+                        v = q.value
+                        first = v[0] if isinstance(v, (list, tuple, np.ndarray)) and len(v) else v
+                        live['unit'], live['first'] = str(cu), first
+        r1 = runner.run_text(text + f'\nUnits:{o["name"]}, {o["unit"]}\n', callbacks=(after_print,))
+        if r1.ok and 'unit' in live:
+            # the directive reaches the output whatever its container type: unit label and value are those requested
+            b0 = None
+            for modname in ('reserv', 'wellbores', 'surfaceplant', 'economics'):
+                b0 = b0 or getattr(base.snap, modname)._outputs.get(o['name'])
+            try:
+                v0 = b0.value[0] if isinstance(b0.value, (list, tuple, np.ndarray)) else b0.value
+                want = U.convert(float(v0), o['cur'], o['unit'])
+                got = float(live['first'])
+                same_unit = U.norm(live['unit']) == U.norm(o['unit'])
+                ok = same_unit and abs(got - want) <= 1e-9 * max(abs(want), 1e-300) + 1e-12
+                mon.check('output-directive-applied', ok,
+                          mechanism='C06/output-unit-directive-not-applied-to-the-output:' + ('series' if o['series'] else 'scalar') + ':' + o['unit_type'],
+                          unit_after_print=live['unit'], value_after_print=got, expected_value=want, **wit)
+            except (TypeError, ValueError, AttributeError, IndexError):
+                mon.note('output-directive-applied-not-judged')
         if not r1.ok:
             mech = 'C06/output-unit-directive-aborts-run:' + o['unit_type']
             if o['unit_type'] in CURRENCY_TYPES:
